@@ -34,8 +34,8 @@ var budgets = map[string]map[string]tierCfg{
 	"C04": {"quick": {Runs: 300000, CapS: 90, DetSeeds: 32, ShrinkS: 20}, "thorough": {Runs: 6000000, CapS: 1200, DetSeeds: 512, ShrinkS: 60}},
 	"C05": {"quick": {Runs: 700000, CapS: 90, DetSeeds: 32, ShrinkS: 20}, "thorough": {Runs: 12000000, CapS: 1200, DetSeeds: 512, ShrinkS: 60}},
 	"C06": {"quick": {Runs: 70000, CapS: 90, DetSeeds: 32, ShrinkS: 20}, "thorough": {Runs: 1500000, CapS: 1200, DetSeeds: 512, ShrinkS: 60}},
-	"C07": {"quick": {Runs: 60000, CapS: 90, DetSeeds: 32, ShrinkS: 20, RaceRuns: 9000}, "thorough": {Runs: 700000, CapS: 1200, DetSeeds: 512, ShrinkS: 60, RaceRuns: 100000}},
-	"C08": {"quick": {Runs: 70000, CapS: 90, DetSeeds: 32, ShrinkS: 20, RaceRuns: 10000}, "thorough": {Runs: 1500000, CapS: 1200, DetSeeds: 512, ShrinkS: 60, RaceRuns: 200000}},
+	"C07": {"quick": {Runs: 50000, CapS: 90, DetSeeds: 32, ShrinkS: 20, RaceRuns: 8000}, "thorough": {Runs: 700000, CapS: 1200, DetSeeds: 512, ShrinkS: 60, RaceRuns: 100000}},
+	"C08": {"quick": {Runs: 50000, CapS: 90, DetSeeds: 32, ShrinkS: 20, RaceRuns: 8000}, "thorough": {Runs: 1500000, CapS: 1200, DetSeeds: 512, ShrinkS: 60, RaceRuns: 200000}},
 	"C10": {"quick": {Runs: 150000, CapS: 90, DetSeeds: 32, ShrinkS: 20}, "thorough": {Runs: 3000000, CapS: 1200, DetSeeds: 512, ShrinkS: 60}},
 	"C11": {"quick": {Runs: 500000, CapS: 90, DetSeeds: 32, ShrinkS: 20}, "thorough": {Runs: 8000000, CapS: 1200, DetSeeds: 512, ShrinkS: 60}},
 	"C12": {"quick": {Runs: 600000, CapS: 90, DetSeeds: 32, ShrinkS: 20}, "thorough": {Runs: 12000000, CapS: 1200, DetSeeds: 512, ShrinkS: 60}},
@@ -52,6 +52,8 @@ func budget(prop, tier string) tierCfg {
 	}
 	return tierCfg{Runs: 40000, CapS: 75, DetSeeds: 32, ShrinkS: 20}
 }
+
+var checkStart = time.Now()
 
 func envInt(name string, def int64) int64 {
 	if s := os.Getenv(name); s != "" {
@@ -109,6 +111,7 @@ func DriverMain(args []string) int {
 	}
 	fmt.Printf("VERIF_SEED=%d property=%s tier=%s runs=%d workers=%d\n", base, prop, tier, cfg.Runs, workers)
 	t0 := time.Now()
+	checkStart = t0
 
 	tmp, err := os.MkdirTemp(filepath.Join(verifDir, "bin"), "run-"+prop+"-")
 	if err != nil {
